@@ -2,7 +2,7 @@
 
 Model checking over transform histories (DESIGN.md section 3, C02).  Objects: an alphabet of segments (incl. the
 degenerate classes the property names) at three magnitudes, paths built from them (incl. a subpath window) and
-the six basic shapes.  Events: X * M (copying), X *= M, reify(), abs(), Path(shape) over a 16-matrix alphabet
+the six basic shapes.  Events: X * M (copying), X *= M, reify(), abs(), Path(shape) over a 17-matrix alphabet
 (rotations, reflections incl. the a=d=0 one, anisotropic scale with condition number 400, shears, general).
 Model state: the exact accumulated matrix A.  Invariant after EVERY transition: every point(t) (9-point grid),
 end point and control point of the object equals A applied to the same point of the pristine original, and
@@ -17,7 +17,7 @@ from ref import affine as af
 
 PROPERTY = "C02"
 LEVEL = "model_checking"
-RULE = ("every history of <= depth events (X*M, X*=M, reify(), abs(), Path(shape); M from a 16-matrix alphabet) "
+RULE = ("every history of <= depth events (X*M, X*=M, reify(), abs(), Path(shape); M from a 17-matrix alphabet) "
         "applied to every object of the segment / path / shape alphabet x magnitudes {1e-3,1,1e5}; model state = "
         "accumulated matrix; a transition = one event, after which all sampled points are compared with the matrix "
         "image of the pristine object's points.  Non-trivial: the history contains a non-identity matrix; distinct = "
@@ -54,6 +54,9 @@ MATS = {
     "G": (1.0, 0.5, 0.2, 1.5, 3.0, 4.0),
     "GN": (1.0, 0.5, 2.0, -1.5, -3.0, 4.0),
     "RSR": af.mul(af.mul(af.rotate(R(30)), af.scale(2.0, 3.0)), af.rotate(R(-10))),
+    # a symmetric stretch: columns of equal length that are not perpendicular (the image of a circle's two radii are
+    # equally long conjugate semi-diameters - "equal, so still a circle" is the shortcut this input collides with)
+    "SYM": (1.0, 0.5, 0.5, 1.0, 0.0, 0.0),
 }
 MNAMES = list(MATS)
 TS = [0.0, 0.125, 0.25, 0.375, 0.5, 0.625, 0.75, 0.875, 1.0]
